@@ -181,7 +181,7 @@ pub fn replay_case(id: &str, op: &str, case: &serde_json::Value) -> Result<(), S
         (_, "typst_collision") | (_, "typst_render") => c16::replay_case(case),
         (_, "parse_sequence") | (_, "lexical_sequence") => c08::replay_case(case),
         (_, "mutator_history") | (_, "set_name_once") => c17::replay_case(case),
-        (_, "spacing") => c09::replay_case(case),
+        (_, "spacing") | (_, "spacing_batch") => c09::replay_case(case),
         (_, "truth_floats") | (_, "budget_floats") | (_, "evident_number") => c13::replay_case(case),
         (_, "ascii_lexicon") | (_, "grammar_conformance_lexical") | (_, "grammar_conformance_enum") => c11::replay_case(case),
         (_, "meaning") => c10::replay_case(case),
